@@ -60,8 +60,14 @@ def hooks():
 
     def mod(ev, n):
         # np.mod(proj_coord + k, 3): the two in-plane coordinates
-        src = ast.unparse(n.args[0])
-        k = src.strip()[-1]
+        a0 = n.args[0]
+        k = None
+        if isinstance(a0, ast.BinOp) and isinstance(a0.op, ast.Add):
+            for side in (a0.right, a0.left):
+                if isinstance(side, ast.Constant) and isinstance(side.value, int):
+                    k = str(side.value)
+        if k is None:
+            k = ast.unparse(a0).strip()[-1]
         return SV("colsym", [Poly.atom({"1": "u", "2": "w"}.get(k, "u"))])
 
     def norm(ev, n):
